@@ -95,7 +95,39 @@ func checkMirrorPacket(pkt []byte, f *mirrorFed, target net.IP, port int, srcPor
 	if !bytes.Equal(pkt[28:], f.Payload) {
 		return "payload", "payload differs from the received datagram"
 	}
+	// UDP checksum: over IPv4 it is either absent (0) or correct - a wrong one makes the target's stack drop the datagram
+	if cs := binary.BigEndian.Uint16(pkt[26:]); cs != 0 {
+		if want := udp4Checksum(pkt); cs != want {
+			return "udp-checksum", fmt.Sprintf("UDP checksum %#04x, the datagram sums to %#04x (payload of %d octets): the receiving stack discards it", cs, want, n)
+		}
+	}
 	return "", ""
+}
+
+// udp4Checksum computes the UDP checksum of an IPv4 packet (20-octet IP header) from its own fields.
+func udp4Checksum(pkt []byte) uint16 {
+	var sum uint32
+	add := func(b []byte) {
+		for i := 0; i+1 < len(b); i += 2 {
+			sum += uint32(b[i])<<8 | uint32(b[i+1])
+		}
+		if len(b)%2 == 1 {
+			sum += uint32(b[len(b)-1]) << 8
+		}
+	}
+	add(pkt[12:20])              // source, destination
+	sum += 17                    // protocol
+	sum += uint32(len(pkt) - 20) // UDP length
+	add(pkt[20:26])              // ports, length
+	add(pkt[28:])                // payload (checksum field taken as zero)
+	for sum>>16 != 0 {
+		sum = sum&0xffff + sum>>16
+	}
+	c := ^uint16(sum)
+	if c == 0 {
+		c = 0xffff
+	}
+	return c
 }
 
 func mirrorMain(args mon.Args) {
